@@ -31,6 +31,7 @@ import Driver.CrawlCH
 import Driver.OWidenH
 import Driver.DisH
 import Driver.ExactIncrH
+import Driver.WDomH
 
 /-!
   crabdrv : line-protocol driver.  Reads cases on stdin, one per line
@@ -68,6 +69,7 @@ def dispatch (comp op : String) (args res : List Sexp) : Verdict :=
   | "zw" => handleZw op args res
   | "ow" => handleOw op args res
   | "dis" => handleDis op args res
+  | "wdom" => handleWDom op args res
   | "xdom" => handleXDom op args res
   | "rprog" => handleRprog op args res
   | "idom" => handleIDom op args res
